@@ -651,7 +651,7 @@ plan_zuc_eea3(void)
         const int *ns;
         const int nn = nset(&ns);
 
-        for (int r = 0; r < reps(2, 8); r++) {
+        for (int r = 0; r < reps(4, 12); r++) {
                 for (int i = 0; i < nn; i++)
                         emit(2, ns[i]);
                 for (size_t i = 0; i < IMB_DIM(few); i++)
@@ -722,7 +722,7 @@ plan_zuc_eia3(void)
         const int *ns;
         const int nn = nset(&ns);
 
-        for (int r = 0; r < reps(2, 8); r++) {
+        for (int r = 0; r < reps(4, 12); r++) {
                 for (int i = 0; i < nn; i++)
                         emit(1, ns[i]);
                 for (size_t i = 0; i < IMB_DIM(few); i++)
@@ -1031,7 +1031,7 @@ plan_snow3g(void)
         const int *ns;
         const int nn = nset(&ns);
 
-        for (int r = 0; r < reps(2, 8); r++) {
+        for (int r = 0; r < reps(3, 10); r++) {
                 for (int i = 0; i < nn; i++) {
                         emit(ns[i] <= SNOW3G_N_MAX ? S3_N : S3_NR, ns[i]);
                         emit(ns[i] <= SNOW3G_N_MAX ? S3_NMK : S3_NMKR, ns[i]);
@@ -1229,7 +1229,7 @@ plan_kasumi(void)
         const int *ns;
         const int nn = nset(&ns);
 
-        for (int r = 0; r < reps(1, 4); r++) {
+        for (int r = 0; r < reps(2, 6); r++) {
                 for (int i = 0; i < nn; i++)
                         emit(KA_N, ns[i]);
                 for (size_t i = 0; i < IMB_DIM(few); i++) {
@@ -1525,7 +1525,7 @@ run_sha(IMB_MGR *m, IMB_MGR *bm, const int sub, int n, uint64_t *st)
 static void
 plan_sha(void)
 {
-        for (int r = 0; r < reps(1, 6); r++) {
+        for (int r = 0; r < reps(2, 8); r++) {
                 for (int a = 0; a < 5; a++) {
                         emit(a, 8);
                         emit(5 + a, 12);
@@ -2530,7 +2530,9 @@ run_child(const int vi, const int ti, const int replay, const uint64_t cseed, co
         if (pid == 0) {
                 close(fd[0]);
                 setvbuf(stdout, NULL, _IOLBF, 0); /* keep finished lines if the library crashes */
-                alarm(60);
+                /* hang detector; generous because the driver runs many processes at once
+                 * (KASUMI is a plain C implementation: ~10 s per variant in the thorough tier) */
+                alarm(getenv("K9_ALARM") != NULL ? (unsigned) atoi(getenv("K9_ALARM")) : 900);
                 V = &g_var[vi];
                 T = &tests[ti];
                 T_id = ti;
